@@ -216,9 +216,14 @@ def run(chk):
                 from ..core.series import to_series
                 badz = []
                 for (l, m, p, q) in [t[3] for t in refterms]:      # every mode of non-zero frequency (these are the terms the summation keeps, R10.1/R10.3)
-                    tp = T.to_trig(itab[l][(m, p)])
-                    f0 = sum(c[0] for c in tp.values())
-                    fscale = max(T.t_maxabs(tp), 1e-300)
+                    try:
+                        tp = T.to_trig(itab[l][(m, p)])
+                        f0 = sum(c[0] for c in tp.values())
+                        fscale = max(T.t_maxabs(tp), 1e-300)
+                    except AnalysisError:
+                        # an entry that is not written as a trigonometric polynomial in I (a root, a folded angle): its value at I = 0 and its scale by evaluation
+                        f0 = abs(X.float_eval(itab[l][(m, p)], {'I': 0.0}))
+                        fscale = max([abs(X.float_eval(itab[l][(m, p)], {'I': v_})) for v_ in (0.3, 0.9, 1.4)] + [1e-300])
                     g0 = to_series(etab[l][p][q], 'e', 0)[0]
                     if abs(float(f0)) > 1e-11 * fscale and g0 != 0:
                         badz.append(f'({l},{m},{p},{q}): F^2(0)={float(f0):.4g}, G^2(0)={float(g0):.4g}, frequency {(l - 2 * p + q) - m} n')
